@@ -546,4 +546,39 @@ theorem transposeOnDiskFlat_eq {α} (zero : α) (M : Mat α) (imax : Nat)
   simp only [List.map_map]
   rfl
 
+/-! ### small additions -/
+
+/-- `_copy_layer_to_x_dense`: whatever the HDF5 chunk shape of the source
+(`none` = contiguous: the function then picks `(min(10000, n // 10) or n, m)`),
+the tiled copy reproduces the matrix -/
+theorem copyDenseLayer_id {β} (h5chunks : Option (Nat × Nat)) (D : List (List β)) (m : Nat)
+    (hn : 1 ≤ D.length) (hm : 1 ≤ m) (hrows : ∀ row ∈ D, row.length = m)
+    (hch : ∀ c, h5chunks = some c → 1 ≤ c.1 ∧ 1 ≤ c.2) :
+    copyDenseLayer h5chunks D m = D := by
+  unfold copyDenseLayer
+  have h1 : 1 ≤ (denseCopyChunks h5chunks D.length m).1 ∧ 1 ≤ (denseCopyChunks h5chunks D.length m).2 := by
+    unfold denseCopyChunks
+    cases h5chunks with
+    | some c => exact hch c rfl
+    | none =>
+      simp only
+      by_cases h : (min 10000 (D.length / 10) == 0) = true
+      · simp only [h, if_true]; exact ⟨hn, hm⟩
+      · simp only [h]
+        have : min 10000 (D.length / 10) ≠ 0 := by simpa using h
+        exact ⟨by simp only [Bool.false_eq_true, if_false]; omega, hm⟩
+  exact tileCopy_id D m _ _ h1.1 h1.2 hrows
+
+/-- a column index outside the matrix is an error of `_csr_to_dense`
+(`IndexError`), never silently dropped -/
+theorem csrToDense_rejects {α} (zero : α) (M : Mat α) (nRows nCols : Nat)
+    (x : Nat) (hx : x ∈ usedCols M) (hbig : nCols ≤ x) :
+    csrToDense zero M nRows nCols = .error .indexOutOfRange := by
+  unfold csrToDense
+  by_cases h : M.indptr.length - 1 > nRows
+  · simp [h]
+  · have : (usedCols M).any (· ≥ nCols) = true := by
+      rw [List.any_eq_true]; exact ⟨x, hx, by simpa using hbig⟩
+    simp [h, this]
+
 end CTM.Sparse
